@@ -603,10 +603,16 @@ def main(run):
                     "CPython's copy.deepcopy memo protocol, pickle reduce protocol, functools.partial, metaclass machinery, and "
                     "array/numpy buffer copying: not modelled beyond their contract, exercised by the differential run only"]
     run.assumptions += ["immutable values (numbers, strings, tuples of those, GP nodes) are atoms; GP nodes are shared by design",
-                        "attribute graphs whose cycles go through a numpy- or tree-based individual are outside the model",
                         "no per-instance attribute created by the class was deleted from the instance",
                         "attributes stored on the fitness object itself (other than values, constraint_violation) are outside the statement"]
     run.build_props()
+    if run.broken and not any("C16" in w for b in run.broken for w in b.get("where", [])):
+        # the shared build tripped over another property's file (several checks build concurrently): once more
+        import time
+        time.sleep(20)
+        run.broken[:] = []
+        run.obligations[:] = []
+        run.build_props()
     rng = run.rng
     toolbox = base.Toolbox()
     pset()
@@ -833,7 +839,7 @@ def main(run):
                 "dct": sorted((k, getattr(v, "__name__", repr(v))) for k, v in dct.items())}
         # initial instances
         roots = []
-        for _ in range(rng.choice([1, 1, 2])):
+        for _ in range(rng.choice([1, 1, 1, 2])):
             ind = instantiate(icls, content_for(code, tc))
             roots.append(ind)
         setup = []
@@ -863,7 +869,7 @@ def main(run):
                 ind.x10 = rng.choice(fits)                             # a class as attribute value
             if rng.random() < 0.15 and strat_cls is not None:
                 ind.x11 = strat_cls([0.5] if base_code(strat_cls) == 2 else [1, 2])
-            if rng.random() < 0.15 and code in (1, 2, 4, 5):
+            if rng.random() < 0.15:
                 if rng.random() < 0.5:
                     ind.x12 = ind                                      # cycle through the individual
                 else:
@@ -888,15 +894,18 @@ def main(run):
         pairs = []
         ops_log = []
         nontrivial = False
-        nops = rng.randint(3, 7)
+        nops = rng.randint(4, 8)
         for step_i in range(nops):
             objs, rv, pyobjs = describe(roots)
             r = rng.random()
+            force_cls = None
             if step_i == 0:
-                r = 0.0
+                r, force_cls = 0.7, icls          # a second instance of the individual class, through the model
             elif step_i == 1:
+                r = 0.0
+            elif step_i == 2:
                 r = 0.4
-            if len(roots) >= 5 and r < 0.65:
+            if len(roots) >= 7 and r < 0.65:
                 r = 0.8
             if r < 0.35:
                 i = rng.randrange(len(roots))
@@ -928,9 +937,10 @@ def main(run):
                 oracle_copy(case_op, "pickle protocol %d" % proto, roots[i], c, proto)
                 # fresh interpreter
                 d1 = describe([roots[i]])
+                exp = {"case": case_op, "snapshot": repr(snapshot(roots[i])),
+                       "class": repr(class_snapshot(type(roots[i]))), "desc": (d1[0], d1[1])}
                 fresh_jobs.append({"what": "object", "blob": base64.b64encode(blob).decode()})
-                fresh_expect.append({"case": case_op, "snapshot": repr(snapshot(roots[i])),
-                                     "class": repr(class_snapshot(type(roots[i]))), "desc": (d1[0], d1[1])})
+                fresh_expect.append(exp)
                 pairs.append((roots[i], c, "pickle protocol %d" % proto))
                 roots.append(c)
                 nontrivial = nontrivial or len(inst_mutables(c)) > 1
@@ -938,6 +948,8 @@ def main(run):
                 # instantiate a created class present in the description
                 ks = [n for n, o in enumerate(pyobjs) if kind_of(o) == K_CLASS]
                 k = rng.choice(ks)
+                if force_cls is not None:
+                    k = [n for n in ks if pyobjs[n] is force_cls][0]
                 c = pyobjs[k]
                 zs = content_for(base_code(c), c.reduce_args[2].get("typecode"))
                 before_ids = set()
@@ -1086,8 +1098,9 @@ def main(run):
                             if back(*a0) != alias(*a0):
                                 run.oracle_violation("unpickled alias calls differently", case)
                             if proto in (0, 2, 5):
+                                exp = {"case": dict(case, alias=al, proto=proto), "res": jres(alias(*a0))}
                                 fresh_jobs.append({"what": "alias", "blob": base64.b64encode(blob).decode(), "args": a0, "kw": []})
-                                fresh_expect.append({"case": dict(case, alias=al, proto=proto), "res": jres(alias(*a0))})
+                                fresh_expect.append(exp)
                         except Exception:  # noqa
                             oks.append(False)
                     ok = all(oks)
@@ -1146,7 +1159,20 @@ def main(run):
             except OSError:
                 pass
     run.extra_cov["fresh_interpreter_loads"] = nfresh
+    before = len(run.disagreements)
     run.correspond("all", "C16", terms, cases, shard=60)
+    if any(d.get("coq_error") for d in run.disagreements[before:]):
+        # a coqc process died without a verdict (killed under memory pressure when many checks run at once):
+        # evaluate everything again, four shards at a time; a second failure is reported
+        import vlib
+        del run.disagreements[before:]
+        run.corr_groups.pop("all", None)
+        run.notes.append("correspondence re-run after a coqc process died without output")
+        ncpu, vlib.NCPU = vlib.NCPU, 4
+        try:
+            run.correspond("all", "C16", terms, cases, shard=60)
+        finally:
+            vlib.NCPU = ncpu
     # leave deap.creator as we found it
     for n in created:
         creator.__dict__.pop(n, None)
